@@ -367,7 +367,41 @@ func (in *inst) stepStmt(pos token.Pos, class string) ast.Stmt {
 	return in.rtCall("Step", intLit(in.site(pos)))
 }
 
+// refuseConcurrency fails closed on constructs the cooperative scheduler does not
+// model: goroutines started by the library itself, channel operations, select.
+// An instrumented copy that ran them would have two real threads inside the
+// simulator's bookkeeping - nondeterministic, and a source of false alarms.
+func (in *inst) refuseConcurrency(f *ast.File) {
+	ast.Inspect(f, func(n ast.Node) bool {
+		what := ""
+		switch x := n.(type) {
+		case *ast.GoStmt:
+			what = "go statement"
+		case *ast.SelectStmt:
+			what = "select statement"
+		case *ast.SendStmt:
+			what = "channel send"
+		case *ast.UnaryExpr:
+			if x.Op == token.ARROW {
+				what = "channel receive"
+			}
+		case *ast.RangeStmt:
+			if tv, ok := in.info.Types[x.X]; ok {
+				if _, isChan := tv.Type.Underlying().(*types.Chan); isChan {
+					what = "range over a channel"
+				}
+			}
+		}
+		if what != "" {
+			p := in.fset.Position(n.Pos())
+			fatal("%s:%d: %s in library code: the simulator's cooperative scheduler does not model goroutines or channels created by the library (cannot instrument; this is not a verdict)", p.Filename, p.Line, what)
+		}
+		return true
+	})
+}
+
 func (in *inst) rewriteFile(f *ast.File) {
+	in.refuseConcurrency(f)
 	// R1: sync types
 	syncUsed := false
 	ast.Inspect(f, func(n ast.Node) bool {
